@@ -72,7 +72,7 @@ theorem sim_connect (hs : Sim home ehome c s) (hid : HostId) (ns : Ns) (eio : Ei
     let d := step r.1 .drain
     let t := s.step (.connect hid ns eio sid)
     Sim home ehome d.1 t.1 ∧ (∀ x, seenBy x (r.2 ++ d.2) = seenBy x t.2) ∧
-    discEvents (r.2 ++ d.2) = discEvents t.2 := by
+    discEvents (r.2 ++ d.2) = discEvents t.2 ∧ d.1.hosts.map Host.id = c.hosts.map Host.id := by
   obtain ⟨hv, hin, rfl⟩ := exists_host_of_id c hid (by rw [← views_fst]; exact hop.1)
   have hf : ApiLike (fun h => apiConnect h ns eio sid) c.hosts :=
     ⟨fun _ _ => rfl, fun _ _ => rfl, fun h _ hi => (hi.apply (.connect ns eio sid) : Inv (Rooms.apply h.rooms _)),
@@ -107,7 +107,7 @@ theorem sim_enter (hs : Sim home ehome c s) (via : HostId) (ns : Ns) (sid : Sid)
     let d := step r.1 .drain
     let t := s.step (.enter via ns sid room)
     Sim home ehome d.1 t.1 ∧ (∀ x, seenBy x (r.2 ++ d.2) = seenBy x t.2) ∧
-    discEvents (r.2 ++ d.2) = discEvents t.2 := by
+    discEvents (r.2 ++ d.2) = discEvents t.2 ∧ d.1.hosts.map Host.id = c.hosts.map Host.id := by
   obtain ⟨hv, hin, rfl⟩ := exists_host_of_id c via (by rw [← views_fst]; exact hop)
   have hf : ApiLike (fun h => apiEnter h ns sid room) c.hosts := by
     refine ⟨?_, ?_, ?_, ?_⟩
@@ -163,7 +163,7 @@ theorem sim_leave (hs : Sim home ehome c s) (via : HostId) (ns : Ns) (sid : Sid)
     let d := step r.1 .drain
     let t := s.step (.leave via ns sid room)
     Sim home ehome d.1 t.1 ∧ (∀ x, seenBy x (r.2 ++ d.2) = seenBy x t.2) ∧
-    discEvents (r.2 ++ d.2) = discEvents t.2 := by
+    discEvents (r.2 ++ d.2) = discEvents t.2 ∧ d.1.hosts.map Host.id = c.hosts.map Host.id := by
   obtain ⟨hv, hin, rfl⟩ := exists_host_of_id c via (by rw [← views_fst]; exact hop)
   have hf : ApiLike (fun h => apiLeave h ns sid room) c.hosts := by
     refine ⟨?_, ?_, ?_, ?_⟩
@@ -209,7 +209,7 @@ theorem sim_close (hs : Sim home ehome c s) (via : HostId) (ns : Ns) (room : Roo
     let d := step r.1 .drain
     let t := s.step (.close via ns room)
     Sim home ehome d.1 t.1 ∧ (∀ x, seenBy x (r.2 ++ d.2) = seenBy x t.2) ∧
-    discEvents (r.2 ++ d.2) = discEvents t.2 := by
+    discEvents (r.2 ++ d.2) = discEvents t.2 ∧ d.1.hosts.map Host.id = c.hosts.map Host.id := by
   obtain ⟨hv, hin, rfl⟩ := exists_host_of_id c via (by rw [← views_fst]; exact hop)
   have hsilent : ∀ h : Host, ∀ m ∈ (apiClose h ns room).pubs, m.silent = true := by
     intro h m hm
@@ -281,7 +281,7 @@ theorem sim_disconnect (hs : Sim home ehome c s) (via : HostId) (ns : Ns) (sid :
     let d := step r.1 .drain
     let t := s.step (.disconnect via ns sid)
     Sim home ehome d.1 t.1 ∧ (∀ x, seenBy x (r.2 ++ d.2) = seenBy x t.2) ∧
-    discEvents (r.2 ++ d.2) = discEvents t.2 := by
+    discEvents (r.2 ++ d.2) = discEvents t.2 ∧ d.1.hosts.map Host.id = c.hosts.map Host.id := by
   obtain ⟨hv, hin, rfl⟩ := exists_host_of_id c via (by rw [← views_fst]; exact hop)
   have hpubs : ∀ h : Host, ∀ m ∈ (apiDisconnect h ns sid).pubs, ∀ o ev d ns' to skip cb,
       m = Msg.emit o ev d ns' to skip cb → Target.ok to := by
@@ -398,7 +398,7 @@ theorem sim_emit_host (hs : Sim home ehome c s) (via : HostId) (ev : Str) (d : D
     let d' := step r.1 .drain
     let t := s.step (.emit (some via) ev d ns to skip cb)
     Sim home ehome d'.1 t.1 ∧ (∀ x, seenBy x (r.2 ++ d'.2) = seenBy x t.2) ∧
-    discEvents (r.2 ++ d'.2) = discEvents t.2 := by
+    discEvents (r.2 ++ d'.2) = discEvents t.2 ∧ d'.1.hosts.map Host.id = c.hosts.map Host.id := by
   obtain ⟨hvia, hok, hcb⟩ := hop
   obtain ⟨hv, hin, rfl⟩ := exists_host_of_id c via (by rw [← views_fst]; exact hvia via rfl)
   have hcb' : cb.isSome → ∃ r, to = .one r := fun h => (hcb h).2
@@ -452,7 +452,7 @@ theorem sim_emit_wo (hs : Sim home ehome c s) (ev : Str) (d : Data) (ns : Ns)
     let d' := step r.1 .drain
     let t := s.step (.emit none ev d ns to skip cb)
     Sim home ehome d'.1 t.1 ∧ (∀ x, seenBy x (r.2 ++ d'.2) = seenBy x t.2) ∧
-    discEvents (r.2 ++ d'.2) = discEvents t.2 := by
+    discEvents (r.2 ++ d'.2) = discEvents t.2 ∧ d'.1.hosts.map Host.id = c.hosts.map Host.id := by
   obtain ⟨_, hok, hcb⟩ := hop
   have hcbn : cb = none := by
     cases cb with
@@ -487,7 +487,9 @@ theorem sim_emit_wo (hs : Sim home ehome c s) (ev : Str) (d : Data) (ns : Ns)
     intro h _
     rfl
   have hsr : t.1.srv.rooms = s.srv.rooms := single_step_rooms hs.sinv _
-  refine ⟨⟨?_, ?_, ?_, e2, e3, ?_, ?_⟩, ?_, ?_⟩
+  refine ⟨⟨?_, ?_, ?_, e2, e3, ?_, ?_⟩, ?_, ?_, ?_⟩
+  rotate_left 7
+  · rw [← views_fst, hviews, views_fst]
   · rw [hviews]; exact hs.placed
   · rw [hsr]; exact hs.sinv
   · rw [hviews, hsr]; exact hs.union
@@ -508,6 +510,121 @@ theorem sim_emit_wo (hs : Sim home ehome c s) (ev : Str) (d : Data) (ns : Ns)
     exact seenEmit_union hs.placed hs.union hs.sinv ns to skip.toList (.str ev) d.pack false x
   · rw [hr2, List.nil_append, e6, hsobs.2]
     exact flatMap_nil' _ _ (fun h _ => by simp [discAfterL, discAfter])
+
+/-! ### client ACK -/
+
+theorem single_ack_obs (ns : Ns) (sid : Sid) (n : Nat) (args : List J) :
+    (∀ x, seenBy x (s.step (.ack ns sid n args)).2 = []) ∧
+    discEvents (s.step (.ack ns sid n args)).2 = [] ∧ askedIn (s.step (.ack ns sid n args)).2 = [] := by
+  simp only [Single.step]
+  split
+  · split
+    · have := apiAck_effect s.srv sid ‹Nat› args
+      exact ⟨this.2.2.2.2.1, this.2.2.2.2.2.1, this.2.2.2.2.2.2⟩
+    · exact ⟨fun _ => rfl, rfl, rfl⟩
+  · exact ⟨fun _ => rfl, rfl, rfl⟩
+
+theorem seenAfterL_allCb' (hid : HostId) (r : Rooms.St) (x : Sid) (ms : List Msg) (h : AllCb ms) :
+    seenAfterL hid r x ms = [] := seenAfterL_allCb hid r x ms h
+
+/-- nothing happened on the cluster; the drain finds nothing but callbacks -/
+theorem sim_noop (hs : Sim home ehome c s) (t : Single × List Out)
+    (hsr : t.1.srv.rooms = s.srv.rooms) (hseen : ∀ x, seenBy x t.2 = []) (hdisc : discEvents t.2 = []) :
+    Sim home ehome (step c .drain).1 t.1 ∧
+    (∀ x, seenBy x ([] ++ (step c .drain).2) = seenBy x t.2) ∧
+    discEvents ([] ++ (step c .drain).2) = discEvents t.2 ∧
+    (step c .drain).1.hosts.map Host.id = c.hosts.map Host.id := by
+  obtain ⟨e1, e2, e3, e4, e5, e6⟩ := drain_effect c c.chan [] (by simp) hs.hinv hs.pending hs.chanOk
+  have hviews : (step c .drain).1.views = c.views := by
+    rw [e1]
+    exact List.map_congr_left (fun h _ => rfl)
+  refine ⟨⟨?_, ?_, ?_, e2, e3, ?_, ?_⟩, ?_, ?_, ?_⟩
+  · rw [hviews]; exact hs.placed
+  · rw [hsr]; exact hs.sinv
+  · rw [hviews, hsr]; exact hs.union
+  · rw [e4, ← views_fst, hviews, views_fst]; exact hs.woId
+  · rw [e4]; exact hs.woRooms
+  · intro x
+    rw [List.nil_append, e5 x, hseen x]
+    exact flatMap_nil' _ _ (fun _ _ => rfl)
+  · rw [List.nil_append, e6, hdisc]
+    exact flatMap_nil' _ _ (fun _ _ => rfl)
+  · rw [← views_fst, hviews, views_fst]
+
+theorem sim_ack (hs : Sim home ehome c s) (ns : Ns) (sid : Sid) (n : Nat) (args : List J) :
+    let r := step c (.ack ns sid n args)
+    let d := step r.1 .drain
+    let t := s.step (.ack ns sid n args)
+    Sim home ehome d.1 t.1 ∧ (∀ x, seenBy x (r.2 ++ d.2) = seenBy x t.2) ∧
+    discEvents (r.2 ++ d.2) = discEvents t.2 ∧ d.1.hosts.map Host.id = c.hosts.map Host.id := by
+  have hsobs := single_ack_obs (s := s) ns sid n args
+  have hsr : (s.step (.ack ns sid n args)).1.srv.rooms = s.srv.rooms := single_step_rooms hs.sinv _
+  have hstep : step c (.ack ns sid n args) =
+      (match c.hosts.find? (fun h => h.connected ns sid), nthAsked c.asked sid n with
+        | some h, some i => c.on h.id (fun h => apiAck h sid i args)
+        | _, _ => (c, [])) := rfl
+  cases hfind : c.hosts.find? (fun h => h.connected ns sid) with
+  | none =>
+    have hr : step c (.ack ns sid n args) = (c, []) := by rw [hstep, hfind]
+    rw [hr]
+    exact sim_noop hs _ hsr hsobs.1 hsobs.2.1
+  | some hv =>
+    have hin : hv ∈ c.hosts := List.mem_of_find?_eq_some hfind
+    cases hnth : nthAsked c.asked sid n with
+    | none =>
+      have hr : step c (.ack ns sid n args) = (c, []) := by rw [hstep, hfind, hnth]
+      rw [hr]
+      exact sim_noop hs _ hsr hsobs.1 hsobs.2.1
+    | some i =>
+      have hr : step c (.ack ns sid n args) = c.on hv.id (fun h => apiAck h sid i args) := by
+        rw [hstep, hfind, hnth]
+      have heff := fun (h : Host) => apiAck_effect h sid i args
+      have hf : ApiLike (fun h => apiAck h sid i args) c.hosts :=
+        ⟨fun h _ => (heff h).2.1, fun h _ => (heff h).2.2.1,
+          fun h _ hi => by rw [(heff h).1]; exact hi,
+          fun h _ => EmitsOk.of_allCb (heff h).2.2.2.1⟩
+      have hrooms_eq : ∀ h : Host,
+          (if h.id = hv.id then (apiAck h sid i args).h.rooms else h.rooms) = h.rooms := by
+        intro h; split
+        · exact (heff h).1
+        · rfl
+      have := sim_api hs (.ack ns sid n args) trivial hv hin _ hf (s.step (.ack ns sid n args)) ?_
+        (single_step_rooms hs.sinv _) ?_ ?_
+      · rw [hr]; exact this
+      · intro h _
+        rw [hrooms_eq h, roomsAfterL_allCb _ _ _ (heff hv).2.2.2.1]
+        rfl
+      · intro x
+        rw [(heff hv).2.2.2.2.1 x, hsobs.1 x, List.nil_append]
+        exact flatMap_nil' _ _ (fun h _ => seenAfterL_allCb _ _ _ _ (heff hv).2.2.2.1)
+      · rw [(heff hv).2.2.2.2.2.1, hsobs.2.1, List.nil_append]
+        exact flatMap_nil' _ _ (fun h _ => discAfterL_allCb _ _ _ (heff hv).2.2.2.1)
+
+/-! ### every operation -/
+
+/-- **One step of the frames-level simulation**: the relation is re-established after the
+    operation and the drain, every client has seen the same packets, the same disconnect handlers
+    have run. -/
+theorem sim_step (hs : Sim home ehome c s) (op : Op)
+    (hop : OpOk home ehome (c.views.map Prod.fst) op) :
+    let r := step c op
+    let d := step r.1 .drain
+    let t := s.step op
+    Sim home ehome d.1 t.1 ∧ (∀ x, seenBy x (r.2 ++ d.2) = seenBy x t.2) ∧
+    discEvents (r.2 ++ d.2) = discEvents t.2 ∧ d.1.hosts.map Host.id = c.hosts.map Host.id := by
+  cases op with
+  | connect hid ns eio sid => exact sim_connect hs hid ns eio sid hop
+  | enter via ns sid room => exact sim_enter hs via ns sid room hop
+  | leave via ns sid room => exact sim_leave hs via ns sid room hop
+  | close via ns room => exact sim_close hs via ns room hop
+  | emit via ev d ns to skip cb =>
+    cases via with
+    | none => exact sim_emit_wo hs ev d ns to skip cb hop
+    | some v => exact sim_emit_host hs v ev d ns to skip cb hop
+  | disconnect via ns sid => exact sim_disconnect hs via ns sid hop
+  | ack ns sid n args => exact sim_ack hs ns sid n args
+  | deliver h k => exact absurd hop (by simp [OpOk])
+  | drain => exact absurd hop (by simp [OpOk])
 
 end ops
 
